@@ -6,8 +6,10 @@ import (
 	"fmt"
 	mrand "math/rand"
 	"net/url"
+	"os"
 	"strings"
 	"testing"
+	"time"
 )
 
 func vpSeqList(x interface{}) [][]string {
@@ -20,8 +22,83 @@ func vpSeqList(x interface{}) [][]string {
 	return out
 }
 
-// c08: e-mail / group rules at login and on every request
 func init() {
+	// c08file: the authenticated-e-mails file is rewritten at run time between login and later requests
+	vpRegister("c08file", func(t *testing.T, env *vpEnv) {
+		for ci := range env.cases {
+			c := &env.cases[ci]
+			render := func(list []string, version int, emptyStyle string) string {
+				var sb strings.Builder
+				for _, u := range list {
+					sb.WriteString(u + "@example.com\n")
+				}
+				if len(list) > 0 {
+					sb.WriteString(fmt.Sprintf("sentinel-v%d@vp.test\n", version))
+				} else if emptyStyle == "comment" {
+					sb.WriteString("# nobody is allowed at the moment\n")
+				}
+				return sb.String()
+			}
+			v1, v2 := vpL(c.In, "v1"), vpL(c.In, "v2")
+			content := render(v1, 1, "empty")
+			w, err := vpNewWorld(&vpCfg{EmailDomains: []string{}, EmailsFile: &content})
+			if err != nil {
+				env.emit(vpOut{ID: c.ID, Err: "world: " + err.Error()})
+				continue
+			}
+			w.idp.addUser("alice", vpUser{Sub: "sub-alice", Email: "alice@example.com", Groups: []string{"g1"}, Username: "alice"})
+			jar := vpNewJar()
+			var steps []map[string]interface{}
+			for _, st := range c.Steps {
+				obs := map[string]interface{}{}
+				switch st.A {
+				case "login":
+					j := jar
+					if vpS(st.Args, "when") == "after" {
+						j = vpNewJar()
+					}
+					cb, err := w.login(j, "alice", "")
+					if err != nil {
+						obs["diverged"] = true
+						break
+					}
+					obs["session"] = w.sessionCookieEffect(cb)
+				case "rewrite":
+					text := render(v2, 2, vpS(c.In, "emptyStyle"))
+					tmp := w.emailsPath + ".tmp"
+					os.WriteFile(tmp, []byte(text), 0o600)
+					os.Rename(tmp, w.emailsPath)
+					// completion: the new version's sentinel is in force, or (nobody listed any more) the old one is gone
+					deadline := time.Now().Add(5 * time.Second)
+					done := false
+					for time.Now().Before(deadline) {
+						if len(v2) > 0 && w.proxy.Validator("sentinel-v2@vp.test") {
+							done = true
+							break
+						}
+						if len(v2) == 0 && !w.proxy.Validator("sentinel-v1@vp.test") {
+							done = true
+							break
+						}
+						time.Sleep(2 * time.Millisecond)
+					}
+					obs["reloaded"] = done
+				case "request":
+					if !vpB(st.Args, "holds") {
+						obs["skipped"] = true
+						break
+					}
+					r := w.get(jar, "/private")
+					obs["served"], obs["status"], obs["session"] = r.UpHits > 0, r.Status, w.sessionCookieEffect(r)
+				}
+				steps = append(steps, obs)
+			}
+			env.emit(vpOut{ID: c.ID, Steps: steps})
+			w.close()
+		}
+	})
+
+
 	vpRegister("c08", func(t *testing.T, env *vpEnv) {
 		voc, err := vpLoadVocab()
 		if err != nil {
